@@ -1,6 +1,7 @@
 package main
 
 import (
+	"encoding/json"
 	"fmt"
 	"math/rand"
 	"os"
@@ -646,4 +647,127 @@ func checkC13(c *Check) {
 		mu.Unlock()
 	})
 	c.Extra["outcomes_by_family"] = classes
+	c13Depth(c, root)
+}
+
+// c13Depth: constructs nested tens of thousands deep. "Never recurses without bound" cannot be observed on small
+// inputs, and the real limit (Go's 1 GB goroutine stack) needs megabytes of source which the regexp-per-token lexer
+// reads for half a minute. So each input first runs in a worker whose stack is limited to 128 MB: a transpiler with
+// bounded recursion answers (script or error); one that overflows there is run again on the same construct 20 times
+// deeper under Go's default limit, and only a death there is a violation (the witness is that second input). A
+// transpiler that survives the second run recurses deeply but boundedly: counted inconclusive, not a violation.
+func c13Depth(c *Check, root string) {
+	type gen struct {
+		key string
+		f   func(n int) string
+	}
+	gens := []gen{
+		{"parentheses", func(n int) string { return "x := " + strings.Repeat("(", n) + "1" + strings.Repeat(")", n) + "\nprint(x)\n" }},
+		{"negations", func(n int) string { return "b := " + strings.Repeat("!", n) + "true\nprint(b)\n" }},
+		{"calls", func(n int) string {
+			return "func id(a int) int {\n\treturn a\n}\nprint(" + strings.Repeat("id(", n) + "1" + strings.Repeat(")", n) + ")\n"
+		}},
+		{"groups-with-operands", func(n int) string { return "x := " + strings.Repeat("(1 + ", n) + "1" + strings.Repeat(")", n) + "\nprint(x)\n" }},
+		{"subscripts", func(n int) string { return "a := []int{0}\nx := " + strings.Repeat("a[", n) + "0" + strings.Repeat("]", n) + "\nprint(x)\n" }},
+		{"open-parentheses-only", func(n int) string { return "x := " + strings.Repeat("(", n) + "\n" }},
+		{"open-blocks-only", func(n int) string { return strings.Repeat("if true {\n", n) }},
+		{"blocks", func(n int) string { return strings.Repeat("if true {\n", n) + strings.Repeat("}\n", n) }},
+	}
+	depth := func(g gen) int {
+		if strings.Contains(g.key, "blocks") {
+			return 12000 // each block copies the scope tables: deeper nests are slow long before they are deep
+		}
+		return 60000
+	}
+	run := func(path string, stackMB int, limit time.Duration) (wResult, string) {
+		w := startWorker("plain", fmt.Sprintf("VERIF_MAXSTACK_MB=%d", stackMB))
+		defer w.kill()
+		b, _ := json.Marshal(wJob{ID: 1, Main: path})
+		w.in.Write(append(b, '\n'))
+		type rd struct {
+			line string
+			err  error
+		}
+		ch := make(chan rd, 1)
+		go func() {
+			l, err := w.out.ReadString('\n')
+			ch <- rd{l, err}
+		}()
+		select {
+		case x := <-ch:
+			if x.err != nil {
+				w.cmd.Wait()
+				return wResult{}, "died: " + clip(w.errb.String(), 600)
+			}
+			var r wResult
+			if json.Unmarshal([]byte(x.line), &r) != nil {
+				return wResult{}, "bad worker reply"
+			}
+			return r, ""
+		case <-time.After(limit):
+			return wResult{}, "timeout"
+		}
+	}
+	outcomes := map[string]string{}
+	var mu sync.Mutex
+	parallelDo(len(gens), 8, func(i int) {
+		g := gens[i]
+		n := depth(g)
+		dir := filepath.Join(root, "depth-"+g.key)
+		os.MkdirAll(dir, 0o755)
+		path := filepath.Join(dir, "main.tsh")
+		os.WriteFile(path, []byte(g.f(n)), 0o644)
+		key := fmt.Sprintf("config/depth/%s/%d", g.key, n)
+		c.Eval(key, true)
+		note := func(s string) {
+			mu.Lock()
+			outcomes[key] = s
+			mu.Unlock()
+		}
+		res, why := run(path, 128, 150*time.Second)
+		if why == "timeout" {
+			c.Inconclusive("depth input not answered within 150 s: " + key)
+			note("timeout")
+			return
+		}
+		if why == "" {
+			for _, t := range []wTarget{res.Bash, res.Batch} {
+				if t.Panic != "" {
+					c.Violation(key, "Go panic escaped Transpile: "+firstLine(t.Panic), map[string]string{"generator": fmt.Sprintf("%s nested %d deep", g.key, n), "panic.txt": clip(t.Panic, 3000)})
+					return
+				}
+				if (t.HasErr && t.Len > 0) || (!t.HasErr && t.Len == 0) || (t.HasErr && strings.TrimSpace(t.Err) == "") {
+					c.Violation(key, "not exactly one of script / non-empty error", map[string]string{"generator": fmt.Sprintf("%s nested %d deep", g.key, n)})
+					return
+				}
+			}
+			if res.Bash.HasErr {
+				note("error: " + clip(stripDir(res.Bash.Err, dir), 80))
+			} else {
+				note("script")
+			}
+			return
+		}
+		if !strings.Contains(why, "stack") {
+			c.Violation(key, "worker process died while transpiling this input: "+firstLine(why), map[string]string{"generator": fmt.Sprintf("%s nested %d deep", g.key, n), "worker-stderr.txt": why})
+			return
+		}
+		// stack overflow under the 128 MB limit: decide under Go's own limit, 20 times deeper
+		big := filepath.Join(dir, "main20.tsh")
+		os.WriteFile(big, []byte(g.f(20*n)), 0o644)
+		_, why2 := run(big, 1024, 900*time.Second)
+		switch {
+		case strings.HasPrefix(why2, "died") && strings.Contains(why2, "stack"):
+			c.Violation(key, fmt.Sprintf("unbounded recursion: %s nested %d deep overflow a 128 MB stack, nested %d deep they overflow Go's 1 GB goroutine stack and the process dies (fatal error, not recoverable)", g.key, n, 20*n),
+				map[string]string{"generator": fmt.Sprintf("%s nested %d deep; the source is %d bytes and is not copied here", g.key, 20*n, len(g.f(20*n))), "worker-stderr.txt": why2})
+		case why2 == "":
+			c.Inconclusive("deep but bounded recursion (128 MB stack too small, 1 GB enough): " + key)
+			note("deep-but-bounded")
+		default:
+			c.Inconclusive("confirmation run of a depth input gave no verdict (" + firstLine(why2) + "): " + key)
+			note("unconfirmed")
+		}
+		os.Remove(big)
+	})
+	c.Extra["depth_family_outcomes"] = outcomes
 }
